@@ -418,6 +418,11 @@ class Contract:
     budget_quick = 600
     budget_thorough = 1800
     bounded_only = False  # contract evaluated only in the bounded tier
+    # Does a run of the real code on the solver's *input values* decide whether a refuted ensures/raises obligation is an
+    # artefact?  True when the inputs determine the whole scenario.  False when part of the scenario is an uninterpreted
+    # function / predicate (a policy, a cache, a URI resolver, a callee that "may raise"): the solver's counterexample
+    # then includes an interpretation the replay does not have, and "the replay holds" says nothing about it.
+    replay_decides = True
     bounded_random = 200
 
     def __init__(self):
@@ -521,6 +526,17 @@ class Contract:
         return fn
 
 
+def unchanged_since_last_callout(S, objname, fields):
+    """clause helper: the function under contract wrote none of `fields` of object `objname` after its last call-out
+    returned (the callee -- re-entrant application code -- may have changed them, and that must stand).  None when the
+    run made no call-out."""
+    after = S.ghost.get("$after_callout")
+    if not after:
+        return None
+    a = getattr(after[-1][1], objname)
+    return band(*[veq(getattr(getattr(S.new, objname), f), getattr(a, f)) for f in fields])
+
+
 def callout(event, returns=None, havoc=None):
     """Handler for a call into unknown code (user callback, transport, ...):
     (1) the object invariant must hold now (obligation), (2) the call is
@@ -548,6 +564,8 @@ def callout(event, returns=None, havoc=None):
                 o._fields[fld] = interp.havoc_like(cur, "%s_%s" % (oname, fld))
             if contract.invariant is not None:
                 c.assume(as_bool_term(contract.invariant(NSView(objs))))
+        # the state the callee left behind (after the havoc): what the caller writes afterwards can be compared with it
+        c.ghost.setdefault("$after_callout", []).append((event, NSView({k: snapshot_of(o) for k, o in objs.items()})))
         if callable(returns):
             return returns(I, recv, *args, **kw)
         return returns
